@@ -28,6 +28,10 @@ type Codes struct {
 	Controller      map[string]string          `json:"controller_kinds"`
 	SwitchKinds     map[string]string          `json:"switch_kinds"`
 	CtStateBits     map[string]int64           `json:"ct_state_bits"`
+	NatRangeBits    map[string]int64           `json:"nx_nat_range_bits"`
+	ParseKinds      map[string]string          `json:"parse_kinds"`
+	MultipartType   map[string]int64           `json:"ofp_multipart_type"`
+	MultipartBody   map[string]string          `json:"multipart_reply_body"`
 	Extra           map[string]json.RawMessage `json:"-"`
 }
 
@@ -58,4 +62,30 @@ func loadCodes() (*Codes, error) {
 		}
 	}
 	return c, nil
+}
+
+// Layout is one kind's wire layout from spec/layout.json.
+type Layout struct {
+	Cite   string      `json:"cite"`
+	Fields [][5]string `json:"fields"`
+}
+
+func loadLayouts() (map[string]*Layout, error) {
+	var f struct {
+		Layouts map[string]*Layout `json:"layouts"`
+	}
+	if err := loadSpec("layout.json", &f); err != nil {
+		return nil, err
+	}
+	for k, l := range f.Layouts {
+		seen := map[string]bool{}
+		for _, r := range l.Fields {
+			key := r[0] + "|" + r[2] + "|" + r[4]
+			if seen[key] {
+				return nil, fmt.Errorf("spec/layout.json: %s: duplicate row %v", k, r)
+			}
+			seen[key] = true
+		}
+	}
+	return f.Layouts, nil
 }
